@@ -78,7 +78,10 @@ def grid(name, tier):
                         dict(param_B=3, param_b=3, param_B_prime=3, param_b_prime=3),
                         dict(param_B=4, param_b=2, param_B_prime=2, param_b_prime=1, param_identifier_size=2),
                         dict(param_B=3, param_b=3, param_B_prime=2, param_b_prime=2, param_identifier_size=3),
-                        dict(param_B=1, param_b=1, param_B_prime=1, param_b_prime=1, param_identifier_size=2)]
+                        dict(param_B=1, param_b=1, param_B_prime=1, param_b_prime=1, param_identifier_size=2),
+                        # misaligned widths: B*id = 15 is not a multiple of B' and 1+15 sits on the AES block boundary, so a
+                        # block padded to B'*index_size (14) instead of B*id (15) changes the ciphertext length
+                        dict(param_B=3, param_b=3, param_B_prime=2, param_b_prime=2, param_identifier_size=5)]
         axes['id'] = [dict(param_identifier_size=v) for v in (8, 16)]
     if name == 'CT14.Pi':
         axes['kprime'] = [dict(param_k_prime=v) for v in (24, 32)]
@@ -96,11 +99,12 @@ def grid(name, tier):
         axes['id'] = [dict(param_identifier_size=v) for v in (1, 4, 16)]
     if name == 'CGKO06.SSE1':
         axes['s'] = [dict(param_s=v) for v in (16, 256, 512)]
-        axes['l'] = [dict(param_l=v) for v in (4, 32)]
+        axes['l'] = [dict(param_l=v) for v in (4, 32, 64)]     # 64: PRP halves of 256 bits, wider than one SHA-1 digest
         axes['dict'] = [dict(param_dictionary_size=v) for v in (16, 64)]
         axes['id'] = [dict(param_identifier_size=v) for v in (1, 4, 16)]
     if name == 'CGKO06.SSE2':
-        axes['l'] = [dict(param_l=v) for v in (4, 32)]
+        axes['l'] = [dict(param_l=v) for v in (4, 32, 64)]
+        axes['nx'] = [dict(_n_extra=3)]                         # param_n as an upper bound on the number of files
         axes['max'] = [dict(param_max_file_size=v) for v in (1, 300, 2 ** 20)]
         axes['id'] = [dict(param_identifier_size=v) for v in (1, 4, 16)]
     for ax, vals in axes.items():
@@ -168,7 +172,7 @@ def finalize_cfg(name, cfg, db):
         files = set()
         for ids in db.values():
             files.update(ids)
-        cfg = dict(cfg, param_n=len(files))
+        cfg = dict(cfg, param_n=len(files) + cfg.get('_n_extra', 0))
     return cfg
 
 
